@@ -1149,9 +1149,14 @@ def diff(snap, ref=None):
         if snap[k] != ref[k]:
             out.append(dict(what=f"{k} differs from the reference", tag=k, index=None, cur=dict(kind="expr", tag=k, disj=[], expr=snap[k]),
                             ref=dict(kind="expr", tag=k, disj=[], expr=ref[k])))
-    for k in ("arg_order", "return_order", "head", "post"):
+    for k in ("arg_order", "return_order", "post"):
         if snap[k] != ref[k]:
             out.append(dict(what=f"{k}: {snap[k]} (reference {ref[k]})", tag=k, index=None, cur=None, ref=None))
+    if snap["head"] != ref["head"]:
+        a, b = snap["head"], ref["head"]
+        i = next((i for i in range(min(len(a), len(b))) if a[i] != b[i]), min(len(a), len(b)))
+        out.append(dict(what=f"head (BADS.__init__ defaults / head of _bounds_check_), statement {i}: "
+                             f"{a[i] if i < len(a) else 'missing'} (reference {b[i] if i < len(b) else 'none'})", tag="head", index=i, cur=None, ref=None))
     return out
 
 
